@@ -75,7 +75,7 @@ META = dict(
     assumptions=["single Session, single thread, SQLite file database with autocommit=False (real SAVEPOINTs)"],
     bounds=dict(
         quick="plain world depth <= 6, natural-key world depth <= 5 (beyond the initial load) x expire_on_commit {True,False}, savepoint depth <= 2",
-        thorough="depth <= 7 in both worlds",
+        thorough="plain world depth <= 7, natural-key world depth <= 6",
     ),
 )
 
@@ -96,7 +96,7 @@ WORLDS = dict(
         prefix=(("get", "NNode", "k1"),),
     ),
 )
-DEPTH = dict(quick=dict(plain=6, natural=5), thorough=dict(plain=7, natural=7))
+DEPTH = dict(quick=dict(plain=6, natural=5), thorough=dict(plain=7, natural=6))
 CHECK_OPS = ("commit", "rollback", "sp_rollback", "sp_commit")
 STATE_OPS = CHECK_OPS + ("close",)  # close() releases (rolls back) the transaction: states / membership are checked too
 ROLLBACK_OPS = ("rollback", "sp_rollback")
@@ -134,8 +134,9 @@ def enabled(ms, world):
     for n in names:
         o = ms.objs[n]
         if not (o.state == D or (o.state == DT and o.wasdel)):
-            if o.state != DT or ms.view().get(M.TABLE_OF[o.cls], {}).get(o.key) is not None:
-                ops.append(("delete", n))
+            row = ms.view().get(M.TABLE_OF[o.cls], {}).get(o.key)
+            if o.state != DT or (row is not None and all(o.vals.get(c) == v for c, v in row.items())):
+                ops.append(("delete", n))  # (a detached object is re-attached by delete(): same precondition as add())
     ops += [("flush",), ("commit",), ("rollback",)]
     if ms.nsp < 2:
         ops.append(("begin_nested",))
